@@ -4,7 +4,7 @@ import z3
 
 from vf.bmc.values import I, as_bv, as_bool, SList, InputIter, VMError, is_z3, shape_of, default_of, ite
 
-REPLAY = {"params": {}, "asserts": [], "log": []}
+REPLAY = {"params": {}, "asserts": [], "log": [], "mon": {}, "faults": {}}
 
 
 def _intrinsic(name):
@@ -66,6 +66,39 @@ def v_queue_payload_free(q):
 @_intrinsic("queue_len")
 def v_queue_len(q):
     return q.qsize()
+
+
+def _mon_key(obj, what):
+    return "%s.%s" % (getattr(obj, "_vf_name", None) or type(obj).__name__, what)
+
+
+@_intrinsic("mon_inc")
+def v_mon_inc(obj, what):
+    """ghost counter (monitor) attached to an object; not a schedulable step"""
+    k = _mon_key(obj, what)
+    REPLAY["mon"][k] = REPLAY["mon"].get(k, 0) + 1
+
+
+@_intrinsic("mon_get")
+def v_mon_get(obj, what):
+    return REPLAY["mon"].get(_mon_key(obj, what), 0)
+
+
+@_intrinsic("fault")
+def v_fault(name):
+    """a Boolean chosen by the solver once per run (does begin() raise? ...)"""
+    return bool(REPLAY["faults"].get(name, False))
+
+
+@_intrinsic("thread_done")
+def v_thread_done(obj):
+    """has the worker process / thread object terminated?"""
+    c = REPLAY.get("ctrl")
+    name = getattr(obj, "_vf_name", None)
+    if c is None:
+        return not obj.is_alive()
+    c.gate("is_done %s" % name)
+    return c.is_finished(name)
 
 
 # ------------------------------------------------------------------------------------------------ VM side
@@ -137,6 +170,28 @@ def dispatch(ex, ts, pst, th, name, args, kwargs):
             cs.append(z3.Implies(ln > I(j), z3.Not(has)))
         ex.visible(ts, pst, "inspect %s" % q.name)
         st.append(z3.And(cs))
+        return None
+    if name == "mon_inc":
+        n = "mon.%s:i" % _mon_key(args[0], args[1])
+        w.declare(n, "i", 0)
+        pst.write(n, "i", pst.read(n, "i") + I(1))
+        pst.reads.discard(n)
+        st.append(None)
+        return None
+    if name == "mon_get":
+        n = "mon.%s:i" % _mon_key(args[0], args[1])
+        w.declare(n, "i", 0)
+        st.append(pst.read(n, "i"))
+        return None
+    if name == "fault":
+        n = "fault.%s:b" % args[0]
+        w.declare(n, "b", False)
+        st.append(pst.read(n, "b"))
+        return None
+    if name == "thread_done":
+        tn = w.thread_of_obj.get(id(args[0])) or getattr(args[0], "_vf_name", None)
+        ex.visible(ts, pst, "is_done %s" % tn)
+        st.append(pst.read("done.%s:b" % tn, "b"))
         return None
     if name == "queue_len":
         q = args[0]
